@@ -29,7 +29,11 @@ RULE = ("a case is (Rust type, site, mode); non-trivial = the type has at least 
         "every argument position, nested to depth 2 quick / 3 thorough, leaves String,&str,i32,u64,f64,bool,(),struct,enum), "
         "numeric (all 14 widths at every position of every depth-1 type), random (depth <= 6), random-clean (depth <= 6, tuple elements and Result Ok arguments without commas), raw (malformed ASCII strings, "
         "unit-level functions only, correspondence only), printers (the three type_to_string variants on arrays, slices, lifetime / const "
-        "generic arguments, qualified paths and fn types, bare and under six constructors; correspondence only)")
+        "generic arguments, qualified paths and fn types, bare and under six constructors; correspondence only); project level through "
+        "the real CLI: payload-expression, module-path, payload-rebinding (a case is a binding history of the payload variable in one "
+        "command - 2 bindings exhaustively over 6 types x 5 first kinds x every re-binding kind, 3-4 bindings at random - with the "
+        "position of the emit, the payload form, an optional if-block and the mode; the listener type must be accepted by c05_ok for "
+        "the type of the most recent binding before the emit, or be unknown)")
 TRUSTED = [
     "Spec/TsType.v + Model/Render.v lexer: TypeScript type grammar subset with postfix [] above |, generics, tuples, qualified names (no tsc in the sandbox)",
     "Spec/C05Spec.v zshape: reading of z.string/number/boolean/void/array/set/record/tuple/union/object/optional/nullable/custom as the type z.infer gives (from the Zod documentation)",
@@ -324,6 +328,9 @@ def run(rep):
     rng = random.Random(rep.seed)
     stats = {}
     run_stream(rep, "corpus", corpus_cases(PID), stats)
+    # project-level corpus (real CLI binary): finding witnesses and regression cases of the payload-rebinding stream
+    vlib.build_repo_bin()
+    rep.add("corpus-rebinding", c05_proj.evaluate_rebinding(c05_proj.rb_corpus()), sample_count=1)
     thorough = rep.tier == "thorough"
     run_stream(rep, "spines", [{"ty": t} for t in T.spines(3 if thorough else 2)], stats)
     run_stream(rep, "numeric", [{"ty": t} for t in T.numeric_sweep()], stats)
@@ -348,6 +355,12 @@ def run(rep):
     vlib.build_repo_bin()
     rep.add("payload-expression", c05_proj.evaluate_exprs())
     rep.add("module-path", c05_proj.evaluate_paths(rep.tier))
+    # the payload VARIABLE bound two to four times in one function (typed parameter / annotated let / struct literal /
+    # T::ctor() / copy, then lets the event parser cannot type, of the same or of another type), emit before / after the
+    # re-binding, both modes: listener type judged by c05_ok against the type the emit really sends (or `unknown`)
+    rb = c05_proj.rb_cases(rng, 3000 if thorough else 200)
+    rep.add("payload-rebinding", c05_proj.evaluate_rebinding(rb))
+    rep.extra.setdefault("distribution", {})["payload-rebinding"] = c05_proj.rebinding_distribution(rb)
     if thorough:
         # the depth-2 sweep of the model inside Coq (same enumeration as the quick tier's spines stream)
         rc, out = vlib.coq_make(["Proofs/C05Sweep2.vo"], timeout=2700)
@@ -373,6 +386,10 @@ def replay(rep, payload):
         if c.get("what") == "payload-expression":
             vlib.build_repo_bin()
             rep.add("payload-expression", [o for o in c05_proj.evaluate_exprs((c["mode"],)) if o.case["tag"] == c["tag"]])
+            continue
+        if c.get("what") == "payload-rebinding":
+            vlib.build_repo_bin()
+            rep.add("payload-rebinding", c05_proj.evaluate_rebinding([c]))
             continue
         if c.get("what") == "module-path":
             vlib.build_repo_bin()
